@@ -105,6 +105,28 @@ class Scratch:
             raise RuntimeError("harness compile failed:\n" + cmd + "\n" + o[-6000:])
         return out
 
+    def prog_object(self, inst, src, link_like, keep_globals=(), defines=""):
+        """Build one *instance* of a program for qsim: compile `src` with main renamed to <inst>_main,
+        partially link it with everything the Makefile links the program with, move its writable data
+        into sections pd_<inst>* / pb_<inst> (so the harness can snapshot/restore the program's globals)
+        and localise every global symbol except <inst>_main and `keep_globals`.  Returns
+        (object path, extra link flags)."""
+        largs = self.load_args(link_like)
+        libs = " ".join(re.findall(r"`cat\s+([^`]+)`", largs.replace("\t", " ")))
+        largs = re.sub(r"`[^`]*`", " ", largs)
+        d = self.dir
+        sh("./compile -Dmain=%s_main %s %s -o %s_i.o" % (inst, defines, src, inst), cwd=d, check=True)
+        sh("ld -r -o %s_p.o %s_i.o %s" % (inst, inst, largs), cwd=d, check=True)
+        ren = " ".join("--rename-section %s=%s" % (a, b) for a, b in (
+            (".data", "pd_%s" % inst), (".data.rel.local", "pdl_%s" % inst), (".data.rel", "pdr_%s" % inst), (".bss", "pb_%s" % inst)))
+        keep = " ".join("-G %s" % g for g in ["%s_main" % inst] + list(keep_globals))
+        sh("objcopy %s %s %s_p.o" % (ren, keep, inst), cwd=d, check=True)
+        extra = ""
+        if libs:
+            rc, o = sh("cat %s" % libs, cwd=d)
+            extra = " ".join(o.split())
+        return os.path.join(d, "%s_p.o" % inst), extra
+
     def cleanup(self):
         shutil.rmtree(self.dir, ignore_errors=True)
 
@@ -128,11 +150,26 @@ def forbidden_scan(paths):
             continue
         txt = open(p).read()
         txt = re.sub(r"/-.*?-/", lambda m: "\n" * m.group(0).count("\n"), txt, flags=re.S)
+        txt = re.sub(r'"(?:[^"\\\n]|\\.)*"', '""', txt)      # string literals cannot hide a proof hole
         for i, line in enumerate(txt.split("\n"), 1):
             code = line.split("--")[0]
             if FORBIDDEN.search(code):
                 hits.append("%s:%d: %s" % (p, i, line.strip()))
     return hits
+
+
+def import_closure(module):
+    """source files of `module` and of every Nq.* module it (transitively) imports"""
+    seen, todo = [], [module]
+    while todo:
+        m = todo.pop()
+        f = os.path.join(LEAN, m.replace(".", "/") + ".lean")
+        if f in seen or not os.path.exists(f):
+            continue
+        seen.append(f)
+        for mm in re.finditer(r"^import\s+((?:Nq|Drv)\.[A-Za-z0-9_.]+)", open(f).read(), re.M):
+            todo.append(mm.group(1))
+    return sorted(seen)
 
 
 def all_lean_sources():
@@ -268,7 +305,7 @@ class Check:
             self.cov["discharged"] = max(0, len(names_before) - max(1, len(broken)))
             self.broken = broken or ["<build of %s failed>" % prop_module]
             return False
-        hits = forbidden_scan(all_lean_sources())
+        hits = forbidden_scan(import_closure(prop_module))
         if hits:
             self.cov["discharged"] = 0
             self.broken = ["forbidden token: " + h for h in hits]
@@ -464,7 +501,7 @@ def byte_mutations(dis, seed, alphabet, per=400, prefix_variants=("0", "1", "2",
 
 def run_standard(prop, prop_module, driver, harness_src, link_like, objs_exclude, args_quick, args_thorough,
                  rule, correspondence_name, alphabet=b"\r\n.a", assumptions=(), extra_cc="", stdin_prefixes=("0", "1", "2", "3"),
-                 harness_name=None, post=None):
+                 harness_name=None, post=None, builder=None, mutate=None):
     """The common shape of a check: proofs + sharded harness|driver + verdict + evidence."""
     c = Check(prop)
     ok = c.proofs(prop_module, drivers=[driver])
@@ -473,8 +510,11 @@ def run_standard(prop, prop_module, driver, harness_src, link_like, objs_exclude
     neighbourhood = None
     if s.ok and c.driver_ok:
         try:
-            h = s.cc(os.path.join(VERIF, harness_src), os.path.join(s.dir, harness_name or ("h_" + prop.lower())),
-                     link_like=link_like, objs_exclude=objs_exclude, extra=extra_cc)
+            if builder:
+                h = builder(s)
+            else:
+                h = s.cc(os.path.join(VERIF, harness_src), os.path.join(s.dir, harness_name or ("h_" + prop.lower())),
+                         link_like=link_like, objs_exclude=objs_exclude, extra=extra_cc)
             drv = driver_path(driver)
             args = args_quick if c.tier == "quick" else args_thorough
             cmds = []
@@ -489,7 +529,7 @@ def run_standard(prop, prop_module, driver, harness_src, link_like, objs_exclude
             stats, samples, disagree, oracle, errors = parse_driver_output(outs)
 
             def neighbourhood(dis):
-                cases = byte_mutations(dis, c.seed, alphabet, prefix_variants=stdin_prefixes)
+                cases = mutate(dis, c.seed) if mutate else byte_mutations(dis, c.seed, alphabet, prefix_variants=stdin_prefixes)
                 if not cases:
                     return None
                 tf = os.path.join(s.dir, "nb.txt")
